@@ -275,6 +275,14 @@ def line(ctx):
                     errs.add(n)
         want = ARM_ERRORS[arm]
         ctx.ob("R15.3", "arm-errors|%s" % arm, errs == want, "arm %s can return errors %s (documented: %s)" % (arm, sorted(errs), sorted(want)), fn.loc(lfs[0].bb))
+        # whether a line is a fault is decided by the line alone: no test on a rejecting path reads the Headers gathered
+        # so far (a "conflicting Content-Length" guard makes an acceptable value fatal depending on what came before)
+        for lf in lfs:
+            rets = S.eval(lf.ret(), fn)
+            if not any(err_name(s_) is not None for s_ in rets):
+                continue
+            reads_self = [t for (t, c, _bb) in lf.conds if any(isinstance(x, tuple) and x and x[0] == "field" and look(x[1]) == ("arg", 1) for x in subterms(t))]
+            ctx.ob("R15.3", "arm-fault-decided-by-the-line|%s|bb%d" % (arm, lf.bb), not reads_self, "arm %s: a rejecting path tests only the line (tests that read self: %s)" % (arm, [term_s(t)[:60] for t in reads_self][:2]), fn.loc(lf.bb))
         if arm not in ("<no-colon>", "<not-utf8>"):
             ctx.ob("R15.3", "arm-accepts|%s" % arm, oks >= 1, "arm %s has an accepting path" % arm, fn.loc(lfs[0].bb))
     # R15.2 trim discipline + R15.4 writers
